@@ -55,6 +55,9 @@ fn make_set(env: &Env, rng: &mut Rng, bundled: &Arc<Voice>) -> Result<Set, Strin
             let o = VoiceOpts::random(rng);
             let mut voices = Vec::new();
             for _ in 0..n {
+                // (the order in which a file lists its per-state trees is each voice's own business)
+                let mut o = o.clone();
+                o.trees_reversed = rng.chance(0.4);
                 let spec = voicegen::generate(&o, &env.pool, rng);
                 let bytes = voicegen::write(&spec);
                 let p = env.voice_file(&bytes);
@@ -318,6 +321,80 @@ pub fn run(ctx: &mut Ctx) {
         if ctx.want_sample() {
             ctx.sample(descr(J::obj().set("labels", labels.len()).set("voices", nv)));
         }
+    });
+
+    // ---- end to end: the engine's trajectories for interior weights are the ones the public
+    // building blocks give for the same weights (model view -> per-stream generation), with the
+    // additional half tone left at 0
+    let n = ctx.n(96, 3000);
+    ctx.run_cases("blend-end-to-end", n, false, |ctx, rng, idx| {
+        let set = match make_set(&env, rng, &bundled) {
+            Ok(s) => s,
+            Err(e) => {
+                ctx.inconclusive(&e);
+                return;
+            }
+        };
+        let nv = set.voices.len();
+        if nv < 2 {
+            ctx.count("single_voice_sets_skipped", 1.0);
+            return;
+        }
+        let Ok(mut multi) = engine_from_voices(set.voices.clone()) else {
+            ctx.violation("engine-construction", J::from(set.descr.clone()));
+            return;
+        };
+        let nstream = multi.voices.global_metadata().num_streams;
+        let mut used: Vec<Vec<f64>> = Vec::new();
+        {
+            let iw = multi.condition.get_interporation_weight_mut();
+            let mut ok = true;
+            let wd = dyadic_weights(rng, nv, false);
+            ok &= iw.set_duration(&wd).is_ok();
+            for i in 0..nstream {
+                let w = if i == 1 && nv == 2 && idx % 2 == 0 {
+                    // the band in which two voices that disagree on voicing give a voiced state
+                    // with a low mean
+                    let a = (rng.range(29, 45) as f64) / 64.0;
+                    if rng.chance(0.5) { vec![a, 1.0 - a] } else { vec![1.0 - a, a] }
+                } else {
+                    dyadic_weights(rng, nv, false)
+                };
+                ok &= iw.set_parameter(i, &w).is_ok();
+                let g = dyadic_weights(rng, nv, false);
+                ok &= iw.set_gv(i, &g).is_ok();
+                used.push(w);
+            }
+            if !ok {
+                ctx.violation("valid-weights-rejected", J::from(set.descr.clone()));
+                return;
+            }
+        }
+        let labels = env.corpus.random_utterance(rng, 1, if ctx.quick() { 6 } else { 20 });
+        let Ok(run) = crate::synth::trajectories(&multi, labels.clone()) else {
+            ctx.violation("synthesize-err", J::from(set.descr.clone()));
+            return;
+        };
+        let want = crate::synth::trajectories_from_public_api(&multi, &labels, &run.durations);
+        let got = [&run.spectrum, &run.lf0, &run.lpf];
+        for k in 0..nstream {
+            let dev = crate::synth::trajectory_deviation(got[k], &want[k]);
+            ctx.max("blend_end_to_end_worst_deviation", if dev.is_finite() { dev } else { 1e300 });
+            if !(dev <= 1e-9) {
+                ctx.violation(
+                    "engine-trajectories-are-not-those-of-the-weighted-model",
+                    J::obj()
+                        .set("set", set.descr.clone())
+                        .set("stream", k)
+                        .set("parameter_weights", J::Arr(used.iter().map(|w| fvec(w, 8)).collect()))
+                        .set("deviation", dev),
+                );
+                return;
+            }
+        }
+        ctx.count("blended_utterances_compared_end_to_end", 1.0);
+        ctx.count("blended_voiced_frames", run.lf0.iter().filter(|f| f[0] != crate::synth::NODATA).count() as f64);
+        ctx.nontrivial(mix(&[9, hash_str(&set.descr), run.durations.len() as u64]));
     });
 
     // ---- end to end: vertex weights reproduce the first voice's waveform bit for bit
